@@ -32,8 +32,8 @@ def parseDecl (j : Json) : R Decl := do
   match ← fldStr j "k" with
   | "param" => return .param (← optS (← fld j "desc")) (← optTree (← fld j "dt")) (← parseProps (← fld j "props")) (← fldBool j "inherit")
   | "cmd" => return .cmd (← optS (← fld j "desc")) (← optTree (← fld j "arg")) (← parseProps (← fld j "props"))
-  | "value" => return .value (← fldStr j "v") false
-  | "method" => return .value "null" true
+  | "value" => return .value (← fldStr j "v") false none
+  | "method" => return .value "null" true (← optS (← fld j "optional"))
   | "none" => return .none
   | k => throw s!"bad decl {k}"
 
@@ -138,6 +138,12 @@ def handle (j : Json) : R Json := do
     return Json.mkObj [("bad", jstrs (orderOffenders (← parseDumps (← fld j "a")) (← parseDumps (← fld j "b"))))]
   | "judge_later" =>
     return Json.mkObj [("ok", Json.bool (laterFreshB (← fldStr j "first") (← fldStr j "later")))]
+  | "judge_write" =>
+    let pairs ← (← fldArr j "pairs").mapM (fun p => do
+      match ← arr p with
+      | [a, b] => return (← a.getStr?, ← b.getStr?)
+      | _ => throw "bad pair")
+    return Json.mkObj [("ok", Json.bool (writesOwnB pairs))]
   | "judge_val" =>
     let pairs ← (← fldArr j "pairs").mapM (fun p => do
       match ← arr p with
